@@ -259,6 +259,11 @@ func (x *Exec) eval(st *State, v ssa.Value) Val {
 		elem := ptrElem(c.Type())
 		name := "global:" + funcKeyGlobal(c)
 		ref := x.decls.Const("gaddr!"+sanitize(name), SInt)
+		if _, seen := x.tags["$gaddr:"+name]; !seen {
+			x.tags["$gaddr:"+name] = 1
+			x.decls.Axiom(Gt(ref, TZero))
+		}
+		st.nonnil[ref.S] = true
 		return Val{Typ: c.Type(), C: []Term{ref}, Prefix: name + ":" + typeName(elem)}
 	case *ssa.Builtin:
 		return Val{Typ: c.Type()}
@@ -397,6 +402,9 @@ func (x *Exec) step(st *State, instr ssa.Instruction) {
 		elem := ptrElem(in.Type())
 		p := st.allocObj(elem, sanitize(in.Comment))
 		p.Typ = in.Type()
+		if !in.Heap {
+			st.localRefs = append(st.localRefs, localRef{p.prefix(), p.T()})
+		}
 		st.set(in, p)
 	case *ssa.FieldAddr:
 		p := x.eval(st, in.X)
@@ -746,6 +754,9 @@ func (x *Exec) unop(st *State, in *ssa.UnOp) {
 		}
 		st.assume(typeConstraint(out.Typ, out.C))
 		st.assumeAllocated(out)
+		if g, ok := in.X.(*ssa.Global); ok {
+			x.globalFacts(st, g, out)
+		}
 		st.set(in, out)
 	case token.NOT:
 		st.set(in, Val{Typ: in.Type(), C: []Term{Not(v.Bool())}})
@@ -884,6 +895,10 @@ func (x *Exec) makeInterface(st *State, v Val, it types.Type) Val {
 		st.assume(Eq(r, app(SInt, box, v.C[0])))
 		st.assume(Eq(app(v.C[0].Sort, unbox, r), v.C[0]))
 	}
+	if isProtoEnum(v.Typ) && len(v.C) == 1 {
+		// protoreflect.Enum.Number() of a boxed enum value is the value itself
+		st.assume(Eq(x.uf("enumnum", []Sort{SInt}, SInt, r), v.C[0]))
+	}
 	inner := v
 	return Val{Typ: it, C: []Term{r}, Dyn: v.Typ, Inner: &inner}
 }
@@ -909,6 +924,11 @@ func (x *Exec) typeAssert(st *State, in *ssa.TypeAssert) {
 		} else {
 			ok = TFalse
 		}
+		out = v
+		out.Typ = in.AssertedType
+	case toIface && types.Implements(v.Typ, in.AssertedType.Underlying().(*types.Interface)):
+		// static type already implements the asserted interface: only nil fails
+		ok = Neq(v.T(), TZero)
 		out = v
 		out.Typ = in.AssertedType
 	case toIface:
@@ -1187,5 +1207,32 @@ func (x *Exec) countEvent(st *State, e Event) {
 			arr := st.heapGet(name, ArrSort(SInt))
 			st.heapSetAt(name, Store(arr, v, Add(Select(arr, v), IntLit(1))), nil)
 		}
+	}
+}
+
+func isProtoEnum(t types.Type) bool {
+	n, ok := types.Unalias(t).(*types.Named)
+	if !ok {
+		return false
+	}
+	b, ok := n.Underlying().(*types.Basic)
+	if !ok || b.Kind() != types.Int32 {
+		return false
+	}
+	for i := 0; i < n.NumMethods(); i++ {
+		if n.Method(i).Name() == "Number" {
+			return true
+		}
+	}
+	return false
+}
+
+// globalFacts: assumed values of well-known package-level variables of dependencies.
+func (x *Exec) globalFacts(st *State, g *ssa.Global, v Val) {
+	switch funcKeyGlobal(g) {
+	case "common/websocket.ErrModuleMsgSkip":
+		x.assumeNote("A-global: hwebsocket.ErrModuleMsgSkip is the constant error of type \"module_msg_skip\"")
+		st.assume(Neq(v.T(), TZero))
+		st.assume(Eq(x.errType(v.T()), x.strLit("module_msg_skip")))
 	}
 }
